@@ -1,7 +1,8 @@
 -------------------------------- MODULE ScGen ---------------------------------
 (* Direction A for C19: fact stores to save and reload, as behaviours of a small builder machine. *)
 EXTENDS FactStore, Json, SequencesExt
-CONSTANTS Universe, MaxFacts, Randomized
+CONSTANTS Universe, MaxFacts, Randomized,
+          Hot            \* a cluster of facts with equal hashes (one predicate): drawn more often than their share of the universe
 VARIABLES facts, cfg, phase
 vars == <<facts, cfg, phase>>
 Init == facts = {} /\ cfg = <<>> /\ phase = "build"
@@ -9,6 +10,9 @@ AddFact == /\ phase = "build" /\ Cardinality(facts) < MaxFacts
            /\ \E f \in (IF Randomized THEN {RandomElement({u \in Universe : Cardinality(facts) >= 0})} ELSE Universe \ facts) :
                 facts' = facts \cup {f}
            /\ UNCHANGED <<cfg, phase>>
+AddHot == /\ phase = "build" /\ Randomized /\ Cardinality(facts) < MaxFacts /\ Hot \ facts # {}
+          /\ \E f \in {RandomElement({u \in Hot \ facts : Cardinality(facts) >= 0})} : facts' = facts \cup {f}
+          /\ UNCHANGED <<cfg, phase>>
 Formats == {"plain", "gzip", "zstd"}
 Empties == {<<>>, <<<<"e", 1>>>>, <<<<"z0", 0>>, <<"e2", 2>>>>, <<<<"p", 3>>, <<"q", 1>>>>}
 Finish == /\ phase = "build"
@@ -17,7 +21,7 @@ Finish == /\ phase = "build"
                 em \in (IF Randomized THEN {RandomElement({x \in Empties : Cardinality(facts) >= 0})} ELSE {<<>>, <<<<"e", 1>>>>}) :
                cfg' = [det |-> d, format |-> fm, empty |-> em]
           /\ phase' = "done" /\ UNCHANGED facts
-Next == AddFact \/ Finish
+Next == AddFact \/ AddHot \/ Finish
 Spec == Init /\ [][Next]_vars
 Emit == phase = "done" => PrintT(<<"CASE", ToJson([facts |-> SetToSeq(facts), det |-> cfg.det, format |-> cfg.format, empty |-> cfg.empty])>>)
 =============================================================================
